@@ -314,9 +314,11 @@ mutual
     | p :: ps => orCount p + orCountList ps
 end
 
-/-- the `loop { … if !went_left { break } }` of one arm: comparison code of every pass and the
-    decision set afterwards; `pass0` numbers the passes globally -/
-def armPasses (env : EnumEnv) (ty : Ty) (a : Nat) (p : Pat) : Nat → Nat → List Path → List (List Instr) × List Path
+/-- the `loop { … if !went_left { break } }` of one arm: for every pass the decision set it was
+    compiled under and its comparison code, and the decision set afterwards; `pass` numbers the passes
+    globally -/
+def armPasses (env : EnumEnv) (ty : Ty) (a : Nat) (p : Pat) :
+    Nat → Nat → List Path → List (List Path × List Instr) × List Path
   | 0, _, D => ([], D)
   | fuel + 1, pass, D =>
     let wentLeft := traverse env [a] p D
@@ -324,18 +326,19 @@ def armPasses (env : EnumEnv) (ty : Ty) (a : Nat) (p : Pat) : Nat → Nat → Li
     let code := [Instr.dup] ++ res.1 ++ [.jumpIf (lblArm pass)]
     if wentLeft then
       let rest := armPasses env ty a p fuel (pass + 1) res.2
-      (code :: rest.1, rest.2)
-    else ([code], res.2)
+      ((D, code) :: rest.1, rest.2)
+    else ([(D, code)], res.2)
 
-/-- comparison part of the match: all passes of all arms; returns per pass (arm index) too -/
-def allPasses (env : EnumEnv) (ty : Ty) : Nat → List Pat → Nat → List Path → List (Nat × List Instr)
+/-- comparison part of the match: all passes of all arms as (arm index, decisions, code) -/
+def allPasses (env : EnumEnv) (ty : Ty) : Nat → List Pat → Nat → List Path → List (Nat × List Path × List Instr)
   | _, [], _, _ => []
   | a, p :: ps, pass, D =>
     let res := armPasses env ty a p (orCount p + 1) pass D
     (res.1.map (fun c => (a, c))) ++ allPasses env ty (a + 1) ps (pass + res.1.length) res.2
 
 /-- bodies: `label arm; handle_pat_binding; body; jump end` per pass, decisions shared (fresh set) -/
-def bodies (env : EnumEnv) (ty : Ty) (arms : List Pat) : Nat → List (Nat × List Instr) → List Path → List Instr
+def bodies (env : EnumEnv) (ty : Ty) (arms : List Pat) :
+    Nat → List (Nat × List Path × List Instr) → List Path → List Instr
   | _, [], _ => []
   | pass, (a, _) :: rest, D =>
     let res := bind env [a] ty (arms.getD a .wild) D
@@ -345,7 +348,7 @@ def bodies (env : EnumEnv) (ty : Ty) (arms : List Pat) : Nat → List (Nat × Li
 /-- `ExprKind::Match`: the code after the scrutinee has been pushed; also the arm of every pass -/
 def matchCode (env : EnumEnv) (ty : Ty) (arms : List Pat) : List Instr × List Nat :=
   let passes := allPasses env ty 0 arms 0 []
-  (passes.flatMap (fun x => x.2) ++ bodies env ty arms 0 passes [] ++ [.label lblEndMatch],
+  (passes.flatMap (fun x => x.2.2) ++ bodies env ty arms 0 passes [] ++ [.label lblEndMatch],
    passes.map (fun x => x.1))
 
 /-- run the match on a value: (arm taken, pass taken, bindings as stored, final stack) -/
